@@ -199,7 +199,7 @@ def run_tlc(module, cfg=None, env=None, workers='auto', simulate=None, depth=Non
     returned in Result.violated.
     """
     metadir = tempfile.mkdtemp(prefix='tlc-', dir=os.path.join(OUT, 'tmp'))
-    jopts = ['-XX:+UseParallelGC']
+    jopts = ['-XX:+UseParallelGC', '-Xss64m']     # deep recursion over long sequences (hundreds of connections)
     if heap:
         jopts.append('-Xmx' + heap)
     if dfs:
